@@ -52,7 +52,11 @@ func encodeFunc(w *World, fn *ssa.Function, noPanics bool) (rep *FuncReport) {
 	e.encode()
 	for _, li := range e.loopList {
 		li.mods = map[string]bool{}
+		li.genMods = map[string]bool{}
 		for b := range li.body {
+			for k := range e.genWrites[b] {
+				li.genMods[k] = true
+			}
 			for k := range e.writes[b] {
 				li.mods[k] = true
 			}
@@ -93,6 +97,8 @@ func main() {
 		os.Exit(cmdCheck(os.Args[2:]))
 	case "baseline":
 		os.Exit(cmdBaseline(os.Args[2:]))
+	case "callees":
+		cmdCallees(os.Args[2:])
 	default:
 		fmt.Fprintln(os.Stderr, "unknown command")
 		os.Exit(2)
@@ -277,4 +283,82 @@ func parseModel(s string) map[string]string {
 		out[name] = strings.Join(strings.Fields(val), " ")
 	}
 	return out
+}
+
+// cmdCallees lists the functions reachable from a root through static calls, with their contract status.
+func cmdCallees(args []string) {
+	w, err := loadWorld("/repo", []string{"/verif/stubs"})
+	if err != nil {
+		fmt.Println(err)
+		return
+	}
+	root := args[0]
+	seen := map[string]bool{}
+	var visit func(k string, depth int)
+	visit = func(k string, depth int) {
+		if seen[k] {
+			return
+		}
+		seen[k] = true
+		fn := w.funcs[k]
+		status := "-"
+		if c := w.cs.Funcs[k]; c != nil {
+			status = "contract"
+			if c.Trusted {
+				status = "trusted"
+			}
+			if c.HasMod {
+				status += "+mod"
+			}
+		} else if w.inferredPure[k] {
+			status = "inferred-pure"
+		}
+		fmt.Printf("%s%s [%s]\n", strings.Repeat("  ", depth), shortKey(k), status)
+		if fn == nil {
+			return
+		}
+		ext := map[string]bool{}
+		for _, b := range fn.Blocks {
+			for _, in := range b.Instrs {
+				ci, ok := in.(ssa.CallInstruction)
+				if !ok {
+					continue
+				}
+				c := ci.Common()
+				if c.IsInvoke() {
+					ext["invoke "+c.Method.FullName()] = true
+					continue
+				}
+				f := c.StaticCallee()
+				if f == nil {
+					if _, isB := c.Value.(*ssa.Builtin); !isB {
+						ext["dynamic"] = true
+					}
+					continue
+				}
+				fk := fnKey(f)
+				if _, inRepo := w.funcs[fk]; inRepo {
+					visit(fk, depth+1)
+				} else {
+					st := "ext"
+					if w.cs.Funcs[fk] != nil {
+						st = "stub"
+					} else if w.isPureExternal(fk) {
+						st = "pure"
+					}
+					if st == "ext" {
+						ext[fk] = true
+					}
+				}
+			}
+		}
+		for _, x := range sortedKeys(ext) {
+			fmt.Printf("%s  ! %s\n", strings.Repeat("  ", depth), x)
+		}
+	}
+	for k := range w.funcs {
+		if strings.HasSuffix(k, root) {
+			visit(k, 0)
+		}
+	}
 }
